@@ -124,7 +124,7 @@ Note(k, v) ==
                                                        LB("IRef", 0, n \o "ir", <<L(b, "inline", n \o "ib")>>),
                                                        LB("H", 2, n \o "h2", <<>>), P("tail", <<>>)>>]
       [] v = 9 -> [title |-> "T" \o n, blocks |-> <<LB("Ref", 0, n \o "m", <<L(Rel(MISSING, d), "inline", n \o "mm")>>),
-                                                      P("x", <<X("https://example.com/" \o n, n \o "xx"), X("HTTPS://EXAMPLE.COM/" \o n, n \o "xy")>>),
+                                                      P("x", <<X("https://example.com/" \o n, n \o "xx"), X("HTTPS://EXAMPLE.COM/" \o n, n \o "xy"), X("ftp://host/" \o n \o ".md", n \o "xz")>>),
                                                       P("w", <<L(a, "wiki", ""), L(b, "piped", n \o "pb")>>)>>]
 
 VARIABLES docs, init, steps
